@@ -86,4 +86,45 @@ theorem processMessage_eq {S : Type} (ops : Ops S) (cfg : Config) (validate : En
       let out := (fpsOf msg).foldl (fpStep ops cfg statusOf r.1) r.2.1
       { store := r.1, reply := if out.isEmpty then none else some out, inserted := r.2.2 } := rfl
 
+/-- whatever `put` preserves, storing incoming values preserves -/
+theorem storeVals_preserves {S : Type} (ops : Ops S) (validate : Entry → Bool) (P : S → Prop)
+    (hput : ∀ s e, P s → P (ops.put s e).1) (values : Vals) (acc : S × Vals) (h : P acc.1) :
+    P (storeVals ops validate acc values).1 := by
+  induction values generalizing acc with
+  | nil => exact h
+  | cons v rest ih =>
+    rw [storeVals_cons]
+    apply ih
+    rw [valStep_store]
+    split
+    · exact hput _ _ h
+    · exact h
+
+theorem itemStep_store_eq {S : Type} (ops : Ops S) (validate : Entry → Bool) (statusOf : Entry → Status)
+    (acc : S × List Part × Vals) (it : Range × Vals × Bool) :
+    (itemStep ops validate statusOf acc it).1 = (storeVals ops validate (acc.1, acc.2.2) it.2.1).1 := by
+  obtain ⟨s, out, evs⟩ := acc
+  obtain ⟨range, values, hl⟩ := it
+  rfl
+
+/-- **whatever `put` preserves, processing a whole message preserves** (the only way a message
+changes the store is through `put`) -/
+theorem processMessage_preserves {S : Type} (ops : Ops S) (cfg : Config) (validate : Entry → Bool)
+    (statusOf : Entry → Status) (P : S → Prop) (hput : ∀ s e, P s → P (ops.put s e).1)
+    (s : S) (msg : Message) (h : P s) :
+    P (processMessage ops cfg validate statusOf s msg).store := by
+  rw [processMessage_eq]
+  simp only
+  suffices hh : ∀ (items : List (Range × Vals × Bool)) (acc : S × List Part × Vals), P acc.1 →
+      P (items.foldl (itemStep ops validate statusOf) acc).1 from hh _ _ h
+  intro items
+  induction items with
+  | nil => intro acc h; exact h
+  | cons it rest ih =>
+    intro acc h
+    simp only [List.foldl_cons]
+    apply ih
+    rw [itemStep_store_eq]
+    exact storeVals_preserves ops validate P hput _ _ h
+
 end Ranger
